@@ -639,7 +639,9 @@ def h_sugar(c, pkg):
 
 
 def r_sugar(inputs, params, obligation):
-    return {'reproduced': False, 'error': 'no concrete replay for sugar cases (report as harness error)'}
+    """the harness function itself on the real package with the counterexample's operand values"""
+    from sx.harness import auto_replay
+    return auto_replay(h_sugar)(inputs, params, obligation)
 
 
 # ------------------------------------------------------------------------------ parameters
